@@ -575,11 +575,76 @@ pub fn run_case(job: &Job, case: u64, part: &mut Part, sequential: bool) {
     }
 }
 
+/// E1 shape with a large vector: more than a thousand children that stay, two threads that keep creating and
+/// removing other children, two threads that keep collecting. Every collection must show each label tuple at
+/// most once and must contain every child that was present throughout.
+fn run_big(job: &Job, part: &mut Part, round: u64) {
+    use std::collections::HashSet;
+    use std::sync::atomic::{AtomicBool, AtomicU64, Ordering};
+    let vec = IntCounterVec::new(Opts::new("c10_big", "h"), &LABELS).unwrap();
+    let stable = 1100usize;
+    for i in 0..stable {
+        vec.with_label_values(&[format!("stable-{}", i).as_str(), "s"]).inc();
+    }
+    let done = AtomicBool::new(false);
+    let collections = AtomicU64::new(0);
+    let bad: std::sync::Mutex<Vec<(String, String)>> = std::sync::Mutex::new(Vec::new());
+    let churn_rounds = if job.thorough { 6000u64 } else { 400 };
+    let finished = AtomicU64::new(0);
+    let cfg = job.run_cfg(round, false);
+    let out = run_threads(&cfg, 4, &|tid| {
+        if tid < 2 {
+            for k in 0..churn_rounds {
+                let a = format!("churn-{}-{}", tid, k % 7);
+                vec.with_label_values(&[a.as_str(), "c"]).inc();
+                let _ = vec.remove_label_values(&[a.as_str(), "c"]);
+            }
+            if finished.fetch_add(1, Ordering::SeqCst) == 1 {
+                done.store(true, Ordering::SeqCst);
+            }
+        } else {
+            loop {
+                let fin = done.load(Ordering::SeqCst);
+                let mfs = vec.collect();
+                collections.fetch_add(1, Ordering::SeqCst);
+                let mut seen: HashSet<(String, String)> = HashSet::new();
+                let mut stable_seen = 0usize;
+                for m in mfs[0].get_metric() {
+                    let l = m.get_label();
+                    let t = (l[0].value().to_string(), l[1].value().to_string());
+                    if t.0.starts_with("stable-") {
+                        stable_seen += 1;
+                    }
+                    if !seen.insert(t.clone()) {
+                        bad.lock().unwrap().push(("label-values-exported-twice".into(), format!("one collection of a vector with {} children shows {:?} twice", mfs[0].get_metric().len(), t)));
+                        return;
+                    }
+                }
+                if stable_seen != stable {
+                    bad.lock().unwrap().push(("present-child-missing-from-collection".into(), format!("a collection contains {} of the {} children that were present throughout", stable_seen, stable)));
+                    return;
+                }
+                if fin {
+                    break;
+                }
+            }
+        }
+    });
+    account_outcome(part, job, round, &out, "big-vector");
+    part.evaluations += 1;
+    part.count("e1_big_vector_collections", collections.load(Ordering::SeqCst));
+    part.count("e1_big_vector_churn_operations", 2 * 2 * churn_rounds);
+    for (rule, msg) in bad.into_inner().unwrap() {
+        violation(part, job, round, &rule, "IntCounter/big-vector", msg, Json::Null);
+    }
+}
+
 pub fn run(job: &Job, part: &mut Part) {
     match job.engine {
         Engine::E1 => {
             let start = std::time::Instant::now();
             let mut case = job.first_case;
+            run_big(job, part, 0);
             while start.elapsed().as_secs_f64() < job.secs {
                 for _ in 0..200 {
                     run_case(job, case, part, false);
